@@ -196,18 +196,17 @@ fn bad() -> String {
     out1("BAD-CASE")
 }
 
-fn run_inner(t: &[&str]) -> Option<String> {
+fn run_inner(t: &[&str]) -> Option<(String, String)> {
     let op = *t.first()?;
     let has_mode = matches!(op, "cl" | "cc" | "ll");
     let mode = if has_mode { *t.get(1)? } else { "" };
     let base = if has_mode { 2 } else { 1 };
     let eps = parse_num(t.get(base)?)?;
-    if eps.to_bits() != EPS.to_bits() {
-        // the constant extracted from util.rs is not the constant the crate was compiled with
-        return Some(out1(&format!("EPS-MISMATCH compiled={:016x}", EPS.to_bits())));
-    }
+    // the constant extracted from util.rs (handed to the model) must be the constant the crate was compiled with;
+    // if not, the raw result is marked (correspondence drift) while the view is still judged against the spec
+    let mismatch = eps.to_bits() != EPS.to_bits();
     let a = &t[base + 1..];
-    match op {
+    let (raw, view): (String, String) = match op {
         "cl" => {
             if a.len() < 4 {
                 return None;
@@ -236,13 +235,13 @@ fn run_inner(t: &[&str]) -> Option<String> {
                         (Some(x), Some(y), Some(rr), Some(l)) => exact_cl(x, y, rr, l),
                         _ => None,
                     };
-                    Some(out2(&raw, &cross_check(kind, exact)))
+                    (raw.to_string(), cross_check(kind, exact).to_string())
                 }
                 "P" => {
                     let ok = pts.iter().all(|p| near_circle(cx, cy, r, p) && ls.dist_to(p.x, p.y) <= TOL);
-                    Some(out2(&raw, ok_off(ok)))
+                    (raw.to_string(), ok_off(ok).to_string())
                 }
-                _ => None,
+                _ => return None,
             }
         }
         "cc" => {
@@ -269,13 +268,13 @@ fn run_inner(t: &[&str]) -> Option<String> {
                 "K" => {
                     let ints: Option<Vec<i128>> = a.iter().map(|s| as_int(s)).collect();
                     let exact = ints.and_then(|z| exact_cc(z[0], z[1], z[2], z[3], z[4], z[5]));
-                    Some(out2(&raw, &cross_check(kind, exact)))
+                    (raw.to_string(), cross_check(kind, exact).to_string())
                 }
                 "P" => {
                     let ok = pts.iter().all(|p| near_circle(v[0], v[1], v[2], p) && near_circle(v[3], v[4], v[5], p));
-                    Some(out2(&raw, ok_off(ok)))
+                    (raw.to_string(), ok_off(ok).to_string())
                 }
-                _ => None,
+                _ => return None,
             }
         }
         "ll" => {
@@ -300,13 +299,13 @@ fn run_inner(t: &[&str]) -> Option<String> {
                         }
                         _ => None,
                     };
-                    Some(out2(&raw, &cross_check(kind, exact)))
+                    (raw.to_string(), cross_check(kind, exact).to_string())
                 }
                 "P" => {
                     let ok = res.iter().all(|p| u.dist_to(p.x, p.y) <= TOL && w.dist_to(p.x, p.y) <= TOL);
-                    Some(out2(&raw, ok_off(ok)))
+                    (raw.to_string(), ok_off(ok).to_string())
                 }
-                _ => None,
+                _ => return None,
             }
         }
         "pos" => {
@@ -332,7 +331,7 @@ fn run_inner(t: &[&str]) -> Option<String> {
                     std::cmp::Ordering::Greater => "Outside",
                 })
             });
-            Some(out2(kind, &cross_check(kind, exact)))
+            (kind.to_string(), cross_check(kind, exact).to_string())
         }
         "con" => {
             let (ls, li, n1) = parse_line(a, 0)?;
@@ -350,7 +349,7 @@ fn run_inner(t: &[&str]) -> Option<String> {
                 }
                 _ => None,
             };
-            Some(out2(&raw, &cross_check(res, exact)))
+            (raw.to_string(), cross_check(res, exact).to_string())
         }
         "ln" => {
             let (ls, _, n1) = parse_line(a, 0)?;
@@ -360,7 +359,7 @@ fn run_inner(t: &[&str]) -> Option<String> {
             let l = ls.build();
             let raw = format!("{} {} {}", show_num(l.a), show_num(l.b), show_num(l.c));
             if l.a.is_nan() || l.b.is_nan() || l.c.is_nan() || l.a.is_infinite() || l.b.is_infinite() || l.c.is_infinite() {
-                return Some(out2(&raw, "nan"));
+                return Some((raw, "nan".to_string()));
             }
             let unit = (l.a * l.a + l.b * l.b - 1.0).abs() <= 1e-9;
             // two points of the exact line, about one unit apart, must be within 1e-7 of the stored line
@@ -379,16 +378,18 @@ fn run_inner(t: &[&str]) -> Option<String> {
             };
             let ev = |p: (f64, f64)| (l.a * p.0 + l.b * p.1 + l.c).abs() / l.a.hypot(l.b);
             let on = ev(p0) <= TOL && ev(p1) <= TOL;
-            Some(out2(&raw, &format!("{} {}", if unit { "unit" } else { "nonunit" }, if on { "on" } else { "off" })))
+            (raw.to_string(), format!("{} {}", if unit { "unit" } else { "nonunit" }, if on { "on" } else { "off" }).to_string())
         }
-        _ => None,
-    }
+        _ => return None,
+    };
+    let raw = if mismatch { format!("{} EPS-MISMATCH:compiled={:016x}", raw, EPS.to_bits()) } else { raw };
+    Some((raw, view))
 }
 
 fn run_case(line: &str) -> String {
     let t: Vec<&str> = line.split_whitespace().collect();
     match catch(|| run_inner(&t)) {
-        Ok(Some(s)) => s,
+        Ok(Some((raw, view))) => out2(&raw, &view),
         Ok(None) => bad(),
         Err(e) => out1(&e),
     }
